@@ -483,7 +483,9 @@ func (g *graph) addBranch(startNode string, branch *GraphBranch, skipData bool) 
 
 	// infer the type of a passthrough start node only if it is still unknown: a type that was already
 	// inferred (and used to validate other edges) must not be replaced, the branch is checked against it.
-	if startNode != START && g.nodes[startNode].executorMeta.component == ComponentOfPassthrough && g.nodes[startNode].cr.inputType == nil {
+	// "Unknown" is asked of the node's output side, which the branch reads: for a node with an output key that is the
+	// keyed map, and the value that goes through the node is not typed from it.
+	if startNode != START && g.nodes[startNode].executorMeta.component == ComponentOfPassthrough && g.getNodeOutputType(startNode) == nil {
 		g.nodes[startNode].cr.inputType = branch.inputType
 		g.nodes[startNode].cr.outputType = branch.inputType
 		g.nodes[startNode].cr.genericHelper = branch.genericHelper.forPredecessorPassthrough()
